@@ -248,7 +248,12 @@ class ArgTypeExpander:
                     assert formal_name is not None
                 else:
                     # Pick an arbitrary item if no specified keyword is expected.
-                    formal_name = (set(actual_type.items.keys()) - self.kwargs_used).pop()
+                    unused_keys = set(actual_type.items.keys()) - self.kwargs_used
+                    if not unused_keys:
+                        # All items have been consumed already. This happens if several TypedDict
+                        # **kwargs provide the same key, which is an error at runtime.
+                        return AnyType(TypeOfAny.from_error)
+                    formal_name = unused_keys.pop()
                 self.kwargs_used.add(formal_name)
                 return actual_type.items[formal_name]
             elif isinstance(actual_type, Instance) and is_subtype(
